@@ -88,7 +88,13 @@ package main
 //@   requires dst != nil
 //@   nullable src
 //@   modifies TMD[dst], TMV[dst]
+// C19 (show): two input sets are taken for the same group only if they have the same number of keys and
+// every key of the first is a key of the second (for finite sets: the same keys).
 //@ func sameTypeKeys
-//@   nullable a b
+//@   requires a != nil && b != nil
+//@   ensures [C19] result ==> card(TMD[a]) == card(TMD[b]) && forall q int :: TMD[a][q] ==> TMD[b][q]
+//@ func sameTypeKeys$1
+//@   requires b != nil
+//@   each [C19] q :: same ==> TMD[b][q]
 //@ func gather$1
 //@   requires k != nil
